@@ -4,6 +4,7 @@
 package labrt
 
 import (
+	"reflect"
 	"bufio"
 	"bytes"
 	"context"
@@ -407,6 +408,7 @@ type cmd struct {
 	Type string `json:"type"`
 	Dir  string `json:"dir"`
 	In   string `json:"in"`
+	Num  int32  `json:"num"`
 	// burst
 	Burst *burstSpec `json:"burst"`
 	// patterns
@@ -597,6 +599,47 @@ func doCodec(c *cmd) {
 	}
 }
 
+// doEnumCodec runs the generated JSON methods of an enum type directly (encoding/json is the
+// only caller of those methods): marshal enum number c.Num, or unmarshal JSON text c.In.
+func doEnumCodec(c *cmd) {
+	ev := map[string]any{"ev": "codec_out", "id": c.ID}
+	defer func() {
+		if p := recover(); p != nil {
+			ev["panic"] = fmt.Sprint(p)
+			ev["stack"] = string(debug.Stack())
+		}
+		emit(ev)
+	}()
+	et, err := protoregistry.GlobalTypes.FindEnumByName(protoreflect.FullName(c.Type))
+	if err != nil {
+		ev["harness"] = err.Error()
+		return
+	}
+	switch c.Dir {
+	case "marshal":
+		v := et.New(protoreflect.EnumNumber(c.Num))
+		_, custom := v.(json.Marshaler)
+		ev["custom"] = custom
+		out, err := json.Marshal(v)
+		if err != nil {
+			ev["err"] = err.Error()
+			return
+		}
+		ev["out"] = b64(out)
+	case "unmarshal":
+		ptr := reflect.New(reflect.TypeOf(et.New(0)))
+		_, custom := ptr.Interface().(json.Unmarshaler)
+		ev["custom"] = custom
+		if err := json.Unmarshal(unb64(c.In), ptr.Interface()); err != nil {
+			ev["err"] = err.Error()
+			return
+		}
+		ev["out"] = b64([]byte(fmt.Sprint(ptr.Elem().Int())))
+	default:
+		ev["harness"] = "bad dir"
+	}
+}
+
 func doPatterns(c *cmd) {
 	srvMu.Lock()
 	s := srvs[c.Srv]
@@ -683,6 +726,8 @@ func dispatch(c *cmd) {
 		doCall(c)
 	case "codec":
 		doCodec(c)
+	case "enumcodec":
+		doEnumCodec(c)
 	case "patterns":
 		doPatterns(c)
 	case "burst":
